@@ -84,6 +84,16 @@ func LoadEngine(repo string, contractsPath string) (*Engine, error) {
 	}
 	e.cs = cs
 	for fn := range ssautil.AllFunctions(prog) {
+		// the reference store model (internal/natsmock): functions with a contract are verified too
+		if fn.Pkg != nil && fn.Pkg != e.pkg && strings.HasSuffix(fn.Pkg.Pkg.Path(), "internal/natsmock") && fn.Blocks != nil && fn.Synthetic == "" && fn.Parent() == nil {
+			k := e.funcKey(fn)
+			if _, has := cs.Funcs[k]; has {
+				e.funcs[k] = fn
+				e.keyOf[fn] = k
+				e.roots = append(e.roots, fn)
+			}
+			continue
+		}
 		if fn.Pkg != e.pkg || fn.Blocks == nil || fn.Synthetic != "" && !strings.Contains(fn.Name(), "$bound") {
 			continue
 		}
@@ -245,6 +255,11 @@ func isString(t types.Type) bool {
 
 // fieldDecl finds the declaration covering a heap path (longest prefix).
 func (e *Engine) fieldDecl(root string, path []string) *FieldDecl {
+	if len(path) > 0 {
+		if i := strings.Index(path[len(path)-1], "#"); i >= 0 {
+			path = append(append([]string{}, path[:len(path)-1]...), path[len(path)-1][:i])
+		}
+	}
 	for n := len(path); n >= 1; n-- {
 		if fd, ok := e.cs.Fields[pathKey(root, path[:n])]; ok {
 			return fd
